@@ -70,3 +70,82 @@ Proof.
 Qed.
 
 End scans.
+
+(* ---- the same for the error records: once completion is signalled and the error stream is drained, the
+   ids logged by the error drain are exactly the requests that carried an error or whose probe failed ---- *)
+Definition errlog_id (e : ev) : option nat := match e with EErrLog (VErr id) => Some id | _ => None end.
+Definition errlog_list (n : net val loc ev) : list nat := omap errlog_id (log n).
+
+Lemma errlog_list_elem n id : id ∈ errlog_list n <-> EErrLog (VErr id) ∈ log n.
+Proof.
+  unfold errlog_list. rewrite elem_of_list_omap. split.
+  - intros (e & He & Hw). destruct e as [i|i|v|v]; simpl in Hw; try discriminate.
+    destruct v; try discriminate. injection Hw as ->. exact He.
+  - intros He. exists (EErrLog (VErr id)). split; [exact He|reflexivity].
+Qed.
+
+Lemma errlog_of_list scan_out reqs n :
+  Forall (PE scan_out reqs) (log n) -> errlog_of n = list_to_set_disj (errlog_list n).
+Proof.
+  unfold errlog_of, errlog_list. induction (log n) as [|e l IH]; intros H; simpl; [reflexivity|].
+  apply Forall_cons in H as [He Hl]. rewrite (IH Hl).
+  destruct e as [id|id|v|v]; simpl; try multiset_solver.
+  destruct He as (i & -> & _). simpl. multiset_solver.
+Qed.
+
+Section errors.
+Variable W : nat.
+Variable scan_out : nat -> scan_res.
+Variable reqs : list (nat * bool).
+Hypothesis Hnodup : NoDup (fst <$> reqs).
+Notation beh := (beh W scan_out).
+
+Definition failed_b (r : nat * bool) : bool :=
+  r.2 || match scan_out r.1 with SFail => true | _ => false end.
+Definition failed_list : list nat := fst <$> filter (fun r => failed_b r = true) reqs.
+
+Lemma failed_elem id : id ∈ failed_list <-> errfate scan_out reqs id.
+Proof.
+  unfold failed_list, errfate, has, failed_b. rewrite elem_of_list_fmap. split.
+  - intros ([i b] & -> & Hin). apply elem_of_list_filter in Hin as [Hs Hin]. simpl in *.
+    destruct b; [left; exact Hin|]. simpl in Hs. right. split; [exact Hin|].
+    destruct (scan_out i); try discriminate; reflexivity.
+  - intros [Hin | [Hin Hf]].
+    + exists (id, true). split; [reflexivity|]. apply elem_of_list_filter. split; [reflexivity|exact Hin].
+    + exists (id, false). split; [reflexivity|]. apply elem_of_list_filter. split; [|exact Hin]. simpl. rewrite Hf. reflexivity.
+Qed.
+
+Lemma failed_NoDup : NoDup failed_list.
+Proof.
+  unfold failed_list. clear -Hnodup. induction reqs as [|[i b] l IH]; [constructor|].
+  rewrite fmap_cons in Hnodup. apply NoDup_cons in Hnodup as [Hni Hl]. specialize (IH Hl).
+  rewrite filter_cons. destruct (decide (failed_b (i, b) = true)) as [Hs|Hs]; [|exact IH].
+  rewrite fmap_cons. apply NoDup_cons. split; [|exact IH].
+  intros Hin. apply Hni. apply elem_of_list_fmap in Hin as (r & Hr & Hin). apply elem_of_list_filter in Hin as [_ Hin].
+  apply elem_of_list_fmap. exists r. auto.
+Qed.
+
+Theorem engine_errors_exact cap n :
+  0 < W -> reachable beh (init W cap reqs) n -> cancelled n = false -> chan_closed n c_done ->
+  (forall ch, chans n !! c_errc = Some ch -> cbuf ch = []) ->
+  (forall j l, procs n !! j = Some l -> role_of l = RDrain -> weight l = ∅) ->
+  errlog_list n ≡ₚ failed_list.
+Proof.
+  intros HW Hr Hc Hd Herrc Hidle.
+  destruct (engine_typed W scan_out reqs cap n Hr) as [[_ Hlog] _].
+  assert (Hfate : forall id, id ∈ errlog_list n -> errfate scan_out reqs id).
+  { intros id Hin. apply errlog_list_elem in Hin. rewrite Forall_forall in Hlog.
+    destruct (Hlog _ Hin) as (i & Hv & He). injection Hv as ->. exact He. }
+  assert (Hone : forall id, errfate scan_out reqs id ->
+                 multiplicity id (list_to_set_disj (errlog_list n) : gmultiset nat) = 1).
+  { intros id He. rewrite <- (errlog_of_list scan_out reqs n Hlog).
+    exact (proj1 (engine_errors_once W scan_out reqs Hnodup cap n id HW Hr Hc Hd Herrc Hidle He)). }
+  apply NoDup_Permutation.
+  - apply mult1_NoDup. intros x Hx. apply Hone. apply Hfate. exact Hx.
+  - apply failed_NoDup.
+  - intros x. rewrite failed_elem. split; [apply Hfate|].
+    intros He. apply (elem_of_list_to_set_disj (A := nat)). apply elem_of_multiplicity.
+    rewrite (Hone _ He). lia.
+Qed.
+
+End errors.
